@@ -682,6 +682,10 @@ func (s *programState) receiveFrom(destination parser.Destination, amount *big.I
 			if err != nil {
 				return err
 			}
+			// a negative cap counts as zero (same as on the source side)
+			if cap.Sign() < 0 {
+				cap = big.NewInt(0)
+			}
 
 			// If the remaining amt is zero, let's ignore the posting
 			if remainingAmount.Cmp(big.NewInt(0)) == 0 {
